@@ -7,4 +7,20 @@ CHECKS = {
    technique="metamorphic trace monitor: all-nodes runs under row permutations / index labellings, node-local comparator aligned by p_id",
    text="Every node of the dependency graph is recomputed for generated valid populations under reversed, sorted, random and all rotated row orders with arbitrary index labels at change dates of the supported window; a node whose inputs agree but whose value (or id partition) differs is a violation localised at that node. Held = no such node on the runs observed.",
    note="Valid populations from vf.popgen; float group sums may differ by summation order (<=1e-12 relative, counted as noise, amplification reported); dates sampled from change dates in quick tier."),
+ "C02": dict(level="exploration", ref="DESIGN.md section 3 / C02",
+   technique="differential trace monitor: trace(A) vs trace(A++B)|A (B after/before/interleaved) and vs trace(relabel(A)); id-collision monitor",
+   text="For generated pairs of valid populations with disjoint ids, all nodes of A are recomputed jointly with a hostile B (corner values, placed before/after/interleaved) and under sparse, order-reversing and shifted relabellings of p_id/hh_id; every node of A must be bit-identical (ids: same partition, pointer columns through the map) and no derived id may span two households.",
+   note="Valid populations from vf.popgen; ids < 20000; fewer than 100 self-sufficient children per family unit; dates sampled in quick tier."),
+ "C03": dict(level="exploration", ref="DESIGN.md section 3 / C03",
+   technique="reference-model (shadow) monitor: unwrapped scalar rule called row by row vs production column, bit-exact, plus dtype-vs-annotation check",
+   text="Every scalar rule of every validity period (392 rules, dates 1984-) is run as the only target through the public API on generated argument columns with the row order rotated so that rows of each python result type come first, and every scalar-rule node of all-nodes system runs is recomputed from the same trace; each row must equal the python result exactly and the dtype must be the declared one.",
+   note="Helper functions taking non-column arguments and not-implemented stubs cannot be exercised (listed in evidence); rows on which the scalar rule itself raises are dropped."),
+ "C04": dict(level="exploration", ref="DESIGN.md section 3 / C04",
+   technique="differential monitor: singleton / random / parameter-only / auto-sum target sets and option settings vs the all-nodes run, bitwise",
+   text="Each column is recomputed under singleton targets, random subsets, parameter-only target sets, automatic sums that exist only because requested, debug, extra unused columns and the three minimal-specification settings, and compared bitwise with the all-nodes run on the same data; shape, RangeIndex and exact column set are checked; an exception under one target set only is a violation.",
+   note="Target sets are sampled (all nodes as singletons in the thorough tier); debug=True is documented to return more than the targets."),
+ "C05": dict(level="exploration", ref="DESIGN.md section 3 / C05",
+   technique="differential monitor: every node supplied as data column with its own computed values vs the all-nodes run, bitwise; warning monitor",
+   text="Every node of the dependency graph (all in the thorough tier, at every change date >= 2015) is supplied as a data column holding its own computed values - also in a lossless other dtype and in pairs - with all other nodes requested; every other node must be bit-identical, the overlap warning must name the node and conversions must be announced.",
+   note="The overlap warning is not demanded for derived time-unit nodes (they are not rules; they are simply not created when the name is a data column)."),
 }
